@@ -18,6 +18,7 @@
 import RigoProofs.C09NoPanic
 import RigoProofs.C09RunChk
 import RigoProofs.C02Witness
+import RigoProofs.C09Apply
 open Std
 
 namespace Rigo.C09
@@ -365,5 +366,74 @@ theorem witness_decodedWF :
     ¬ DecodedWF { stakeSelf with type := TRX_SETDOC, amount := 0 } ∧
     (handleTx sOK true 1 { stakeSelf with type := TRX_SETDOC, amount := 0 }).2.panic
       = "type assertion: payload is not TrxPayloadSetDoc" := by decide
+
+/-! ### EndBlock: the apply-time parse panic is unreachable (repair b664b04)
+
+A governance-parameter option reaches the node inside a TRX_PROPOSAL — an externally supplied input.  Before the
+repair an option that unmarshalled as submitted but not in the form `applyProposals` reads it passed validation and,
+once the proposal had won, crashed EVERY node in EndBlock (`unrepaired_witness`).  The repaired `validateProposal`
+rejects it; the invariant `C09A.OptsParse` (every option of every stored PROPOSAL_GOVPARAMS proposal — open or
+frozen, committed versions, consensus and mempool view — has an apply-time parse, and the recorded major option of
+a frozen proposal is one of its options) holds in every reachable state, without any hypothesis on the inputs. -/
+
+/-- the invariant holds after InitChain … -/
+theorem optsParse_init (g : Genesis) : C09A.OptsParse (initChain g) := C09A.optsParse_init g
+
+/-- … is kept by EVERY operation from ANY state satisfying it (no phase discipline, any transaction bytes) … -/
+theorem optsParse_step {s : St} (hs : C09A.OptsParse s) (op : Op) (hop : op.isInit = false) :
+    C09A.OptsParse (step s op).1 := C09A.optsParse_step hs op hop
+
+/-- … hence holds in every reachable state. -/
+theorem optsParse_reachable {g : Genesis} {s : St} (h : Reachable g s) : C09A.OptsParse s := C09A.optsParse_reachable h
+
+/-- **apply_never_fails_to_parse.**  "Adversarially chosen inputs never cause a panic", for the governance options
+    read back in EndBlock: in every reachable state, at every height, `applyProposals` does not answer with the
+    apply-time parse panic.  No hypothesis beyond reachability. -/
+theorem apply_never_fails_to_parse {g : Genesis} {s : St} (hr : Reachable g s) (height : Int) :
+    applyProposals s height ≠ .panic "EndBlock: option does not unmarshal at apply time" :=
+  C09A.apply_never_fails_to_parse hr height
+
+/-- all panic outcomes of `applyProposals` in a reachable state: only "DelFinality of a frozen proposal that is gone"
+    is left (a matter of the ABCI call order — two EndBlocks without a Commit —, not of the inputs) -/
+theorem applyProposals_panics {g : Genesis} {s : St} (hr : Reachable g s) {height : Int} {e : String}
+    (h : applyProposals s height = .panic e) : e = "EndBlock: DelFinality of a frozen proposal that is gone" :=
+  C09A.applyProposals_panic_cases (C09A.optsParse_reachable hr).fprops h
+
+/-- **endBlock_parse_panic_unreachable.**  The same for the whole of EndBlock (proposals frozen by this very EndBlock
+    included). -/
+theorem endBlock_parse_panic_unreachable {g : Genesis} {s : St} (hr : Reachable g s) :
+    (endBlock s).2.panic ≠ "EndBlock: option does not unmarshal at apply time" :=
+  C09A.endBlock_parse_panic_unreachable hr
+
+/-- every answer EndBlock can give in its panic field in a reachable state ("" = none) -/
+theorem endBlock_panics {g : Genesis} {s : St} (hr : Reachable g s) : (endBlock s).2.panic ∈ C09A.endBlockPanics :=
+  C09A.endBlock_panic_cases (C09A.optsParse_reachable hr)
+
+/-- **unrepaired_witness.**  What the repair removed: a hand-built state (NOT reachable any more,
+    `C09A.sBad_unreachable`) with a frozen PROPOSAL_GOVPARAMS proposal whose major option parses as submitted
+    (`parsedV`) but not at apply time (`parsedA = none`) and whose applying height is reached — `applyProposals` and
+    `endBlock` answer with the panic. -/
+theorem unrepaired_witness :
+    C09A.pBad.applying ≤ 7 ∧ (C09A.pBad.major.bind (·.parsedA)) = none ∧ (C09A.pBad.major.bind (·.parsedV)).isSome = true ∧
+    applyProposals C09A.sBad 7 = .panic "EndBlock: option does not unmarshal at apply time" ∧
+    (endBlock C09A.sBad).2.panic = "EndBlock: option does not unmarshal at apply time" :=
+  C09A.unrepaired_witness
+
+example (g : Genesis) : ¬ Reachable g C09A.sBad := C09A.sBad_unreachable g
+
+/-- the repaired check rejects nothing else: a proposal whose options parse both ways (and that meets the other
+    conditions) is accepted -/
+example := @C09A.validateProposal_accept
+
+/-- non-vacuity: a reachable state (the first blocks of `C10P.exOps`, inside block 3 of a well-phased history) holds a
+    two-option PROPOSAL_GOVPARAMS proposal in the consensus view of the open-proposal ledger -/
+example : Reachable C10P.exG C09A.sProp ∧ phaseRun .idle C09A.opsProp = some .inBlock ∧
+    ∃ p, C09A.sProp.props.fin[ledgerKey "b0"]? = some p ∧ p.optType = PROPOSAL_GOVPARAMS ∧
+      p.options.map (·.parsedA) = [some C10P.optA, some C10P.optB] ∧ p.applying = 6 :=
+  ⟨C09A.sProp_reachable, C09A.sProp_phase, C09A.sProp_has_proposal⟩
+
+/-- non-vacuity on the frozen side (hand-made `C10P.sApply`: the winning proposal frozen and committed, block 7
+    open): the invariant holds and `applyProposals` goes through -/
+example : C09A.OptsParse C10P.sApply := C09A.sApply_optsParse
 
 end Rigo.C09
